@@ -51,7 +51,11 @@ def gen_direct_ops(rng, spec, execute_op, view, nops):
     """adaptive generation: mostly legal calls, a few illegal ones; yields nothing, calls execute_op(op)
     which returns False when the backend raised (the sequence ends there)"""
     ncfg = spec["nx"] * spec["ny"]
-    scale = rng.choice([0.125, 0.5, 1.0, 4.0])
+    # outside-time scale relative to the table's typical time per level
+    lasts = [rows[-1][0] / len(rows) for per_seed in spec["table"] for rows in per_seed]
+    epoch = max(sum(lasts) / len(lasts), 0.02)
+    scale = epoch * rng.choice([0.25, 1.0, 1.0, 3.0, 10.0])
+    illegal = rng.random() < 0.25       # three quarters of the sequences contain only legal calls
     for _ in range(nops):
         running = [t for t, s in view.status.items() if s == "InProgress"]
         paused = [t for t, s in view.status.items() if s == "Paused"]
@@ -62,9 +66,9 @@ def gen_direct_ops(rng, spec, execute_op, view, nops):
             if spec["use_maxres"] and rng.random() < 0.8:
                 mr = rng.choice([1, 2, spec["nfid"], rng.randint(1, spec["nfid"] + 2)])
             idx = rng.randrange(ncfg)
-            if rng.random() < 0.01:
+            if illegal and rng.random() < 0.03:
                 idx = ncfg + 1          # configuration that is not in the table
-            if spec["use_maxres"] and rng.random() < 0.01:
+            if illegal and spec["use_maxres"] and rng.random() < 0.03:
                 mr = 0                  # illegal max resource
             op = dict(kind="start", cfg=idx, maxres=mr)
         elif r < 0.50:
@@ -75,8 +79,10 @@ def gen_direct_ops(rng, spec, execute_op, view, nops):
                 ids = list(range(view.n))
             elif pick < 0.95:
                 ids = [t for t in range(view.n) if rng.random() < 0.6]
-            else:
+            elif illegal:
                 ids = [rng.randrange(view.n + 1)] * 2   # duplicate / possibly unknown id
+            else:
+                ids = [rng.randrange(view.n)] * 2       # duplicate id
             rng.shuffle(ids)
             op = dict(kind="fetch", ids=ids)
         elif r < 0.66:
@@ -101,7 +107,7 @@ def gen_direct_ops(rng, spec, execute_op, view, nops):
             op = dict(kind="resume", t=t, newc=newc)
         elif r < 0.92 and running:
             op = dict(kind="stop", t=rng.choice(running))
-        elif r < 0.97:
+        elif r < 0.97 or not illegal:
             op = dict(kind="busy")
         else:
             # illegal / unusual calls
@@ -330,9 +336,9 @@ def run(ctx, replay=None):
             for f in sorted(os.listdir(cdir)):
                 if f.endswith(".json"):
                     todo.append(json.load(open(os.path.join(cdir, f))))
-        for i in range(ctx.n(130, 2500)):
+        for i in range(ctx.n(260, 2500)):
             todo.append(dict(kind="direct", gen=True, big=(i % 10 == 0)))
-        for i in range(ctx.n(36, 600)):
+        for i in range(ctx.n(60, 600)):
             todo.append(dict(kind="tuner", gen=True))
 
     for item in todo:
@@ -341,7 +347,7 @@ def run(ctx, replay=None):
             if item.get("gen"):
                 spec = sh.gen_spec(rng, big=item.get("big", False))
                 np_seed = rng.randrange(2 ** 31)
-                log, seed_calls = run_direct(spec, None, rng=rng, nops=rng.choice([8, 20, 40, 70]), np_seed=np_seed)
+                log, seed_calls = run_direct(spec, None, rng=rng, nops=rng.choice([10, 25, 45, 70, 100]), np_seed=np_seed)
             else:
                 spec, np_seed = item["spec"], item.get("np_seed", 0)
                 log, seed_calls = run_direct(spec, item["ops"], np_seed=np_seed)
@@ -396,6 +402,10 @@ def run(ctx, replay=None):
 
     if not cases:
         return
+    # common._case_dir() publishes its per-process directory name before creating it; create it here,
+    # before the worker threads of coq_bad_cases race for it
+    import common
+    getattr(common, "_case_dir", lambda: None)()
     bad = ctx.coq_bad_cases("sim", sh.IMPORTS, sh.PRELUDE, "chk_case", cases, shard=12, jobs=8)
     if bad:
         where = ctx.coq_eval("simdiff", sh.IMPORTS, sh.PRELUDE, ["diff_case %s" % cases[i] for i in bad[:40]])
